@@ -45,6 +45,16 @@ def make_cases(rng, tier):
                           sif(mk_ecmp("==", emath(mvar("h.I64")), emath(mint(1))), block([assign(("var", "x"), "=", ("math", mint(5)))]))], ret(emath(x())))
     add([("A", None, 9, body())], [h()], twice=True)
     add([("A", None, 9, block([assign(("var", "x"), "=", ("math", mint(3)))], ret(emath(x())))), ("B", None, 5, block([], ret(emath(x()))))], [], twice=True)
+    # a local that holds a POINTER handed out by the host (h.Slot() points at h.I64) and is then re-assigned a plain value is
+    # REBOUND: the host cell keeps its value, the other rule (same local name, same pointer) and the next call see the cell unchanged
+    slot = lambda: matom(acall(call("method", "h.Slot", [])))
+    hs = lambda: inj_struct("h", fields={"I64": tv_int("i64", 1)})
+    for newv in (mint(42), matom(const(kreal("4.5"))), mvar("u")):
+        for first in ("A", "B"):
+            ra = ("A", None, 9 if first == "A" else 2, block([assign(("var", "v"), "=", ("math", slot())), assign(("var", "v"), "=", ("math", newv))], ret(emath(mvar("v")))))
+            rb = ("B", None, 5, block([assign(("var", "v"), "=", ("math", slot())), assign(("var", "w"), "=", ("math", mvar("h.I64")))], ret(emath(mvar("w")))))
+            add([ra, rb], [hs(), inj_val("u", tv_int("u8", 200))], twice=True)
+    add([("A", None, 9, block([assign(("var", "v"), "=", ("math", slot())), assign(("var", "v"), "+=", ("math", mint(1)))], ret(emath(mvar("h.I64")))))], [hs()])
     # OVERLAPPING executions (concurrent model, rule A held at a gate between the write and the read of its local): rule B binds
     # the same local name meanwhile — from a struct field, a nested field, a slice element (addressable sources), a constant
     gate = lambda: scall(call("func", "Gate", [("const", kstr("gate"))]))
